@@ -185,7 +185,13 @@ def rule_coalesce(P) -> RuleResult:
                 if f.endswith('.join'):
                     return 'x'
                 return NotImplemented
-            eng = Engine(P, on_attr=on_attr, on_call=on_call)
+
+            def oracle(term, ex):
+                # the compiled operands of this case: at least two of them
+                if isinstance(term, SList) and term.origin is not None and term.origin[0] == Sym('AST_OPERANDS'):
+                    return True
+                return None
+            eng = Engine(P, on_attr=on_attr, on_call=on_call, oracle=oracle)
             for p in eng.paths(fi, {'self': SELF, fi.params[1]: NODE}):
                 rejected = p.outcome == 'raise' and p.value[0] == 'CompilationError'
                 if p.outcome == 'raise' and not rejected:
@@ -204,6 +210,27 @@ def rule_coalesce(P) -> RuleResult:
             break
     if ok:
         res.ok({'site': fi.fq, 'type_pairs': n, 'accepts': "only arguments of the first argument's type"})
+    # coalesce() without arguments: rejected, not an IndexError from the evaluator's constructor
+    def on_attr0(base, attr, ex):
+        if base == NODE and attr == 'fname':
+            return 'coalesce'
+        if base == NODE and attr == 'operands':
+            return SList([])
+        return NotImplemented
+
+    def on_call0(fname, fval, recv, args, kwargs, ex, node):
+        if str(fname).split('.')[-1] == 'EvalCoalesce' and init is not None:
+            obj = T('new', ('EvalCoalesce', args))
+            ex.inline(init, obj, args, kwargs)
+            return obj
+        return NotImplemented
+    for p in Engine(P, on_attr=on_attr0, on_call=on_call0).paths(fi, {'self': SELF, fi.params[1]: NODE}):
+        if p.outcome == 'raise' and p.value[0] == 'CompilationError':
+            res.ok({'site': fi.fq, 'case': 'coalesce() without arguments', 'outcome': 'CompilationError'})
+        else:
+            res.fail(f'{fi.fq}:coalesce', 'coalesce:arity', f'coalesce() without arguments: '
+                     + (f'raises {p.value[0]} (the result type is taken from the first argument)' if p.outcome == 'raise' else 'accepted')
+                     + '; a statement that cannot be compiled must be rejected with a CompilationError', loc(fi))
     return res
 
 
@@ -1067,3 +1094,179 @@ def rule_inop(P) -> RuleResult:
         if len(res.findings) == n0:
             res.ok({'handler': fi.fq, 'right_operand': kind, 'operands': 'handed on unmodified'})
     return res
+
+
+# ----------------------------------------------------------------------
+# constant folding (part of R-FOLDPURE): what is folded, when, and through what
+
+def fold_cases(P, res):
+    """A call / operator application on constants is folded into the value its *evaluator node* gives when applied to no row
+    (so NULL propagation, zero-divisor guards and the like apply to the folded value exactly as to a per-row evaluation);
+    nothing is folded when an operand is not a constant or, for functions, when the function is not pure."""
+    NODE = Sym('NODE')
+    EVAL = T('new', ('EVALUATOR',))
+    FOUND = Sym('OVERLOAD')
+
+    def judge(site, fi, label, p, should_fold):
+        construct = f'{fi.fq}:constant-folding'
+        if p.outcome != 'return':
+            if p.outcome == 'raise' and p.value[0] == 'CompilationError':
+                return True
+            res.fail(construct, 'foldpure:raises', f'{label}: {p.outcome} {show(p.value)[:60]}', loc(fi))
+            return False
+        v = p.value
+        folded_right = T('new', ('EvalConstant', (T('call', (show(EVAL), (None,), ())), T('attr', (EVAL, 'dtype')))))
+        if should_fold:
+            if v == EVAL:
+                return True       # not folding is always correct
+            if v != folded_right:
+                res.fail(construct, 'foldpure:value', f'{label}: the folded constant must be the value the evaluator node gives on no row, with '
+                         f'its type - EvalConstant(node(None), node.dtype) - so that NULL propagation and the guards of the operator apply to '
+                         f'folded and per-row evaluation alike; got `{show(v)[:120]}`', loc(fi))
+                return False
+            return True
+        if v != EVAL:
+            detail = 'foldpure:pure' if 'not pure' in label else 'foldpure:operands'
+            res.fail(construct, detail, f'{label}: the expression must not be folded; got `{show(v)[:100]}`', loc(fi))
+            return False
+        return True
+
+    def common_call(f, fval, args, kwargs):
+        if f == 'EvalConstant':
+            return T('new', ('EvalConstant', args))
+        if fval == FOUND:
+            return EVAL
+        if f == 'function_lookup':
+            return FOUND
+        if f == 'type':
+            return Sym('NODETYPE')
+        return NotImplemented
+    # unary operators
+    fi = _method(P, '_unaryop')
+    ok = True
+    for const in (True, False):
+        OPND = Sym('C_OPERAND')
+        paths = Engine(P, on_call=lambda fn, fv, rc, a, k, ex, nd: OPND if str(fn).split('.')[-1] == '_compile' else common_call(str(fn).split('.')[-1], fv, a, k),
+                       on_isinstance=lambda v, c, ex: const if v == OPND and gname(c).endswith('EvalConstant') else NotImplemented).paths(
+            fi, {'self': SELF, fi.params[1]: NODE})
+        for p in paths:
+            ok &= judge('unary', fi, f'unary operator on a {"constant" if const else "non-constant"} operand', p, const)
+    if ok:
+        res.ok({'site': fi.fq, 'folds': 'constant operand', 'through': 'the evaluator node applied to no row'})
+    # binary operators
+    fi = _method(P, '_binaryop')
+    ok = True
+    for lc, rc_ in ((True, True), (True, False), (False, True), (False, False)):
+        L, R = Sym('C_LEFT'), Sym('C_RIGHT')
+        OP = Sym('OPERATOR_CLASS')
+
+        def on_attr(base, attr, ex):
+            if base == NODE and attr in ('left', 'right'):
+                return Sym('AST_' + attr)
+            if base in (L, R) and attr == 'dtype':
+                return Sym('int')
+            return NotImplemented
+
+        def on_call(fn, fv, rc, a, k, ex, nd):
+            f = str(fn).split('.')[-1]
+            if f == '_compile':
+                return L if a == (Sym('AST_left'),) else R
+            if fv == OP:
+                return EVAL
+            return common_call(f, fv, a, k)
+
+        def on_item(base, idx, ex):
+            if isinstance(base, T) and base.op == 'global' and base.args[0].endswith('OPERATORS'):
+                return SList([OP])
+            return NotImplemented
+
+        def on_isinstance(v, c, ex, _l=lc, _r=rc_):
+            if gname(c).endswith('EvalConstant'):
+                return _l if v == L else _r if v == R else NotImplemented
+            return NotImplemented
+
+        def oracle(term, ex):
+            if isinstance(term, T) and term.op == 'cmp' and term.args[0] == '==' and isinstance(term.args[2], SList):
+                return True       # the overload matches the (typed) operands
+            return None
+        for p in Engine(P, on_attr=on_attr, on_call=on_call, on_item=on_item, on_isinstance=on_isinstance, oracle=oracle,
+                        globals_={'OPERATORS': T('global', ('OPERATORS',)), 'object': Sym('object')}).paths(fi, {'self': SELF, fi.params[1]: NODE}):
+            if any(e[0] == 'loop-cut' for e in p.events):
+                continue
+            label = f'binary operator, left {"constant" if lc else "not constant"}, right {"constant" if rc_ else "not constant"}'
+            ok &= judge('binary', fi, label, p, lc and rc_)
+    if ok:
+        res.ok({'site': fi.fq, 'folds': 'both operands constant', 'through': 'the evaluator node applied to no row'})
+    # function calls
+    fi = _method(P, '_function')
+    ok = True
+    for consts in ((True, True), (True, False), (False, False)):
+        for pure in (True, False):
+            C = [Sym('C_ARG0'), Sym('C_ARG1')]
+
+            def on_attr(base, attr, ex):
+                if base == NODE and attr == 'fname':
+                    return 'some_function'
+                if base == NODE and attr == 'operands':
+                    return SList([Sym('AST_ARG0'), Sym('AST_ARG1')])
+                if base == EVAL and attr == 'pure':
+                    return pure
+                return NotImplemented
+
+            def on_call(fn, fv, rc, a, k, ex, nd):
+                f = str(fn).split('.')[-1]
+                if f == '_compile':
+                    return C[0] if a == (Sym('AST_ARG0'),) else C[1]
+                return common_call(f, fv, a, k)
+
+            def on_isinstance(v, c, ex, _c=consts):
+                if gname(c).endswith('EvalConstant') and v in C:
+                    return _c[C.index(v)]
+                return NotImplemented
+            for p in Engine(P, on_attr=on_attr, on_call=on_call, on_isinstance=on_isinstance).paths(fi, {'self': SELF, fi.params[1]: NODE}):
+                label = f'function call, arguments {"all constant" if all(consts) else "not all constant"}, function {"pure" if pure else "not pure"}'
+                ok &= judge('function', fi, label, p, all(consts) and pure)
+    if ok:
+        res.ok({'site': fi.fq, 'folds': 'all arguments constant and the function pure', 'through': 'the evaluator node applied to no row'})
+
+
+
+def select_target_cases(P, res):
+    """Every SELECT target is compiled from its expression, named by get_target_name(target) and marked aggregate or not."""
+    fi = _method(P, '_compile_targets')
+    TG1, TG2 = Sym('AST_TARGET1'), Sym('AST_TARGET2')
+    CE = {TG1: Sym('C_EXPR1'), TG2: Sym('C_EXPR2')}
+
+    def on_call(fn, fv, rc, a, k, ex, nd):
+        f = str(fn).split('.')[-1]
+        if f == '_compile':
+            for tg, ce in CE.items():
+                if a == (T('attr', (tg, 'expression')),):
+                    return ce
+            return Sym('C_OTHER')
+        if f == 'get_target_name':
+            return T('call', ('get_target_name', a, ()))
+        if f == 'is_aggregate':
+            return a[0] == CE[TG2] if a else False
+        if f == '_check_aggregates':
+            return None
+        if f == 'EvalTarget':
+            return T('new', ('EvalTarget', a, k))
+        return NotImplemented
+
+    def on_isinstance(v, c, ex):
+        return False
+    ok = True
+    for p in Engine(P, on_call=on_call, on_isinstance=on_isinstance).paths(fi, {'self': SELF, fi.params[1]: SList([TG1, TG2])}):
+        v = p.value
+        items = v.items if isinstance(v, SList) and not v.opaque_tail else None
+        want = [T('new', ('EvalTarget', (CE[t], T('call', ('get_target_name', (t,), ())), t == TG2), ())) for t in (TG1, TG2)]
+        if p.outcome != 'return' or items != want:
+            ok = False
+            got = ', '.join(show(x)[:70] for x in items) if items is not None else show(v)[:120]
+            detail = 'hidden:name-source' if items and len(items) == 2 and all(isinstance(x, T) and x.op == 'new' and x.args[1][:1] == (CE[t],)
+                                                                                for x, t in zip(items, (TG1, TG2))) else 'hidden:targets'
+            res.fail(f'{fi.fq}:EvalTarget', detail, 'every SELECT target must become EvalTarget(its compiled expression, '
+                     f'get_target_name(target), whether it is an aggregate), in order; got [{got}]', loc(fi))
+    if ok:
+        res.ok({'site': fi.fq, 'name': 'get_target_name(target)', 'order': 'as written'})
